@@ -66,7 +66,38 @@ UNITS['lex'] = {
 _KANI_STATUS = {'package': 'vk-status', 'harness': 'status_try_from_total_and_domain', 'bounded': False,
                 'bound': 'loop-free, full u64 domain (complete)', 'tier': 'quick', 'decode': 'raw', 'timeout': 900}
 
+UNITS['c10'] = {
+    'template': 'contracts/c10.vrs',
+    'mutants': [
+        ('edge_flipped_new', 'graph.add_edge(m, n, ());', 'graph.add_edge(n, m, ());', ['C10.']),
+        ('edge_flipped_known', 'graph.add_edge(*m, n, ());', 'graph.add_edge(n, *m, ());', ['C10.']),
+        ('deps_not_recorded', 'deps.insert(import, m);', '', ['C10.']),
+        ('validity_not_checked', 'if !loader.is_valid(&target) {', 'if false {', ['C10.']),
+        ('new_module_not_queued', 'queue.push(m);', '', ['C10.']),
+        ('module_not_stored', 'mods.insert(module);', '', ['C10.']),
+    ],
+}
+
 PROPS = {
+    'C10': {
+        'units': ['c10'],
+        'level': 'proof',
+        'obligation_prefixes': ['C10.'],
+        'technique': 'Verus contract on the real module::load with a ghost event log injected into the real Loader trait; load-once / compile-after-imports / acyclicity as lemmas over the log',
+        'level_text': 'Deductive proof (Verus/Z3) for every import graph and every loader satisfying the ghost-log contract: whenever the real load() returns Ok, '
+                      'there is a duplicate-free node list starting at the base, every node wired to all its import targets (edge import -> importer), a topological order of that graph, '
+                      'and the loader log is exactly: one Load+Parse per node in discovery order, then one Compile per node in that order. Load-once, parse-once, compile-once, '
+                      'compile-after-imports, no self import / acyclicity (so a cyclic graph can only give Err) and validity of every imported locator are lemmas over that contract. '
+                      'All unwrap/expect sites are proved unreachable.',
+        'level_note': 'Trusted: petgraph Graph::{add_node,add_edge,node_weight} and toposort (Ok ==> topological order; Err ==> node id in range), HashMap via vstd, ModuleSet::{new,insert,get} as a map, '
+                      'Locator::join as a function (join_id), Program::imports returns the import strings of the tree, Loader implementations satisfy the ghost-log contract. '
+                      'Termination of the work-list loop is NOT proved (exec_allows_no_decreases_clause). Which error is reported first and the order among independent modules are not decided.',
+        'design_ref': 'DESIGN.md section 5, C10',
+        'explanation': 'Whole real body of load() verified (4 loops, 2 closures, 5 unwrap/expect sites) against an Ok-path contract over a ghost event log; the property clauses are lemmas over that contract.',
+        'assumptions': ['dependency contracts listed in trusted_base', 'the set of valid locators is whatever the Loader says; termination not proved',
+                        'url normalisation inside Locator::join is trusted (two spellings of one file are one module exactly when join maps them to the same locator)'],
+        'not_decided': ['termination of the work list', 'which error kind is reported when several apply', 'Err-path: that the error names the offending import (E is an opaque From<Error>)'],
+    },
     'C04': {
         'units': ['lex', 'c07', 'c16'],
         'kani': [dict(_KANI_STATUS, obligation='C04.status.try_from.total')],
@@ -214,7 +245,6 @@ NOT_APPLICABLE = {
     'C18': 'rename correctness is alpha-equivalence of two whole programs (C05 shape) and depends on the resolver invariant (C08)',
     'C01': 'contract not completed yet (see DESIGN.md section 5, C01)',
     'C03': 'contract not completed yet',
-    'C10': 'contract not completed yet',
 }
 
 
